@@ -15,7 +15,7 @@ CLAIMS = {
          "Trusts go/types, sync.Cond/channel/RWMutex semantics; lock identity is per (type, field).",
          "DESIGN.md §3 C03"),
  "C04": ("table extraction of the heap comparator over all order types + who-may-call + path rules on the queue implementations",
-         "Decides the finite, structural part of the dispatch order: the heap comparator equals (priority ascending, insertion index ascending) on all order types incl. int64 extremes; heap methods are reached only through container/heap; Enqueue reads-then-increments the tie index once before heap.Push; Chunk.Push/Pop and Queue.Enqueue/Dequeue keep the slot/index/link/advance discipline behind correct full/empty tests; one consumer. Every AddAll enqueues by ranging over the caller's slice itself (not a sorted or copied one); one dispatcher at a time, also across Restart (joined before re-spawn). It does not decide that these pieces compose to FIFO/heap order for every length.",
+         "Decides the finite, structural part of the dispatch order: the heap comparator equals (priority ascending, insertion index ascending) on all order types incl. int64 extremes; heap methods are reached only through container/heap; Enqueue reads-then-increments the tie index once before heap.Push; Chunk.Push/Pop and Queue.Enqueue/Dequeue keep the slot/index/link/advance discipline behind correct full/empty tests; one consumer. Every AddAll enqueues by ranging over the caller's slice itself (not a sorted or copied one); one dispatcher at a time, also across Restart (joined before re-spawn). Neither the dispatcher goroutine nor the completion callback can reach an Enqueue (a dequeued job is never put back behind later ones); the comparator is evaluated through helper methods, shifts and wrapping conversions. It does not decide that these pieces compose to FIFO/heap order for every length.",
          "Trusts container/heap; int is 64 bit; adapters excluded.",
          "DESIGN.md §3 C04"),
  "C05": ("path analysis + who-may-call + job-status table (finite-domain propagation)",
@@ -23,15 +23,15 @@ CLAIMS = {
          "Trusts sync.WaitGroup; the job table is sequential per job.",
          "DESIGN.md §3 C05"),
  "C06": ("table extraction of the wait/release predicates over the abstract state space + lockset + path rules + lifecycle table",
-         "Structural necessary conditions of exact barriers: the wait predicate equals the reference over status x pending x in-flight and is re-evaluated in a loop; the release evaluation reaches Broadcast wherever the wait predicate is false (Running/Paused); Broadcast runs under the Cond's mutex; every in-flight decrement, every drain of the queue and Purge re-evaluate the release; the in-flight counter is raised before the dequeue; Stop/PauseAndWait/WaitAndStop wait before they act. The release is a Broadcast (never Signal); the step reserves its slot before it reads the status; the completion lowers the in-flight counter only after the job's Close. Every store of Paused is followed by a release evaluation (callers parked on the running worker are woken); the signal send is attempted under the blocking read lock. Does not decide concurrent barrier callers or the protocol's sufficiency as a whole.",
+         "Structural necessary conditions of exact barriers: the wait predicate equals the reference over status x pending x in-flight and is re-evaluated in a loop; the release evaluation reaches Broadcast wherever the wait predicate is false (Running/Paused); Broadcast runs under the Cond's mutex; every in-flight decrement, every drain of the queue and Purge re-evaluate the release; the in-flight counter is raised before the dequeue; Stop/PauseAndWait/WaitAndStop wait before they act. The release is a Broadcast (never Signal); the step reserves its slot before it reads the status; the completion lowers the in-flight counter only after the job's Close. Every store of Paused is followed by a release evaluation (callers parked on the running worker are woken); the signal send is attempted under the blocking read lock. Every completion path gives the in-flight slot back exactly once (the count is a term of every barrier condition). Does not decide concurrent barrier callers or the protocol's sufficiency as a whole.",
          "Trusts sync.Cond and sequentially consistent atomics.",
          "DESIGN.md §3 C06"),
  "C07": ("lexical containment + path analysis + sibling agreement over the three worker-function wrappers",
-         "The user function runs only inside a literal passed to WithSafe, which recovers into its named result and calls its argument once; each wrapper counts exactly one of Failed/Successful behind the matching error test and reports failures to worker and job; fresh response per single job, results tagged with the receiver's id; id/data written only in constructors; id = generator then options, WithJobId(\"\") no-op. sendError reaches its send on every path; job options are applied only by loadJobConfigs, each job gets configs loaded for it, from the bound worker's configuration (not a default one, also through helpers). Does not decide 'exactly one of sendResult/sendError' (value correlation) nor payload values.",
+         "The user function runs only inside a literal passed to WithSafe, which recovers into its named result and calls its argument once; each wrapper counts exactly one of Failed/Successful behind the matching error test and reports failures to worker and job; fresh response per single job, results tagged with the receiver's id; id/data written only in constructors; id = generator then options, WithJobId(\"\") no-op. sendError reaches its send on every path; job options are applied only by loadJobConfigs, each job gets configs loaded for it, from the bound worker's configuration (not a default one, also through helpers). A batch member's id is a fixed constant decoration of the configured id on every path; WithJobId never rewrites the id it was given. Does not decide 'exactly one of sendResult/sendError' (value correlation) nor payload values.",
          "Trusts recover() semantics.",
          "DESIGN.md §3 C07"),
  "C08": ("atomic check-then-act analysis (interference-mode propagation on the batch counter) + job-status table + path rules",
-         "WgCounter.Done decrements by compare-and-swap, releases once per won swap and reports true exactly for 1→0 (enumerated under interference); group Close closes the shared stream only when its own Done reported true; stream capacity = counter = len(items); rejected items closed; empty batch closes its stream at construction, non-empty never. Close effects only after a won transition (interference); Values() lists every stored item (segment bounds of the segment itself); per-item job configs. Does not decide one-result-per-item (C07).",
+         "WgCounter.Done decrements by compare-and-swap, releases once per won swap and reports true exactly for 1→0 (enumerated under interference); group Close closes the shared stream only when its own Done reported true; stream capacity = counter = len(items); rejected items closed; empty batch closes its stream at construction, non-empty never. Close effects only after a won transition (interference); Values() lists every stored item (segment bounds of the segment itself); per-item job configs. Success and failure results are both tagged with the receiver's own id. Does not decide one-result-per-item (C07).",
          "Trusts sync/atomic CAS.",
          "DESIGN.md §3 C08"),
  "C09": ("path analysis with status propagation + synchronous call-graph reachability + lifecycle table",
@@ -39,31 +39,31 @@ CLAIMS = {
          "Trusts sync/atomic sequential consistency.",
          "DESIGN.md §3 C09"),
  "C10": ("atomic check-then-act analysis (interference-mode status propagation) + job-status table + path rules",
-         "Decides the structural part of cancel/purge/close: plain status stores only where the job is exclusively owned, all other transitions compare-and-swap whose attempted transitions (every Load may return any state) go to Closed only from Created/Queued/Finished and to Processing never from Closed; Close result table over 5 states x 6 implementations; closed test precedes every mutation in both Enqueue implementations; Purge closes what it removes. Every Close performs its effects and returns nil only after its own won compare-and-swap (enumerated under interference). One known finding (Purge = Values()+Purge(), two critical sections).",
+         "Decides the structural part of cancel/purge/close: plain status stores only where the job is exclusively owned, all other transitions compare-and-swap whose attempted transitions (every Load may return any state) go to Closed only from Created/Queued/Finished and to Processing never from Closed; Close result table over 5 states x 6 implementations; closed test precedes every mutation in both Enqueue implementations; Purge closes what it removes. Every Close performs its effects and returns nil only after its own won compare-and-swap (enumerated under interference). No Close of a queue can reach Purge, Dequeue or a job's Close (pending jobs still run). One known finding (Purge = Values()+Purge(), two critical sections).",
          "Trusts sync/atomic CAS; adapters excluded.",
          "DESIGN.md §3 C10"),
  "C11": ("who-may-call + def-use value flow + path analysis + job-status table",
-         "Library side of at-least-once: Acknowledge only in job.ack, ack only in Close, Close on dequeued jobs only in the completion callback after the worker function; the receipt attached is the third result of this delivery's DequeueWithAckId and is what Acknowledge receives, on the queue the item came from, both attached before the hand-off; ack at most once, never for an empty id or closed job, refusal is an error before any release; the dispatcher path never acknowledges; persistent/distributed Add is true only when the adapter accepted. The dispatcher keeps draining after a failed step and no wake-up is lost (recovery without further prompting). Does not decide the adapter's bookkeeping or crash points inside it.",
+         "Library side of at-least-once: Acknowledge only in job.ack, ack only in Close, Close on dequeued jobs only in the completion callback after the worker function; the receipt attached is the third result of this delivery's DequeueWithAckId and is what Acknowledge receives, on the queue the item came from, both attached before the hand-off; ack at most once, never for an empty id or closed job, refusal is an error before any release; the dispatcher path never acknowledges; persistent/distributed Add is true only when the adapter accepted. The dispatcher keeps draining after a failed step and no wake-up is lost (recovery without further prompting). The wrappers run the user's function synchronously, so the completion (and the acknowledgement) follows its return. Does not decide the adapter's bookkeeping or crash points inside it.",
          "Trusts the adapter to re-deliver unacknowledged items.",
          "DESIGN.md §3 C11"),
  "C12": ("table extraction (status writer/reader tables, wire struct) + path analysis",
-         "Status writer and reader tables are inverse bijections with an erroring default; one wire struct with distinct JSON names, id/payload wired through both directions; encode error ⇒ false and nothing enqueued, the bytes enqueued are Json()'s; decode/cast failures are non-nil error returns that the dispatcher reports without leaving its loop; decoded jobs get their queue before the hand-off. No wire field carries a dropping/re-typing JSON option (omitempty, string). Does not decide encoding/json round-trip equality for payload values.",
+         "Status writer and reader tables are inverse bijections with an erroring default; one wire struct with distinct JSON names, id/payload wired through both directions; encode error ⇒ false and nothing enqueued, the bytes enqueued are Json()'s; decode/cast failures are non-nil error returns that the dispatcher reports without leaving its loop; decoded jobs get their queue before the hand-off. No wire field carries a dropping/re-typing JSON option (omitempty, string). Id and data are written only in the constructors and WithJobId stores its argument unchanged. Does not decide encoding/json round-trip equality for payload values.",
          "Trusts encoding/json to honour struct tags.",
          "DESIGN.md §3 C12"),
  "C13": ("sibling agreement of the distributed binders + path analysis of the subscription handler",
-         "Each distributed binder performs exactly one Register(adapter) and one Subscribe(own handler), both before exactly one start; the handler counts one submission and notifies per 'enqueued' and nothing otherwise; producer-side Add touches no worker; a lost dequeue race is an error return, not a loop exit; completion re-notifies. Binders subscribe before they start; a bind on an already running worker wakes the dispatcher. Does not decide that exactly one of k consumers runs an item (the adapter's atomic dequeue).",
+         "Each distributed binder performs exactly one Register(adapter) and one Subscribe(own handler), both before exactly one start; the handler counts one submission and notifies per 'enqueued' and nothing otherwise; producer-side Add touches no worker; a lost dequeue race is an error return, not a loop exit; completion re-notifies. Binders subscribe before they start; a bind on an already running worker wakes the dispatcher. The wake-up send is attempted under the blocking read lock on every call (never skipped for a busy lock). Does not decide that exactly one of k consumers runs an item (the adapter's atomic dequeue).",
          "Trusts the adapter's Dequeue and notification delivery.",
          "DESIGN.md §3 C13"),
  "C14": ("finite-domain status propagation: lifecycle and bind methods extracted as a sequential transition table, compared with the documented machine",
-         "Every (method, initial state) cell of Pause, PauseAndWait, Resume, Stop, WaitAndStop, Restart, TunePool, start and all 16 public bind methods equals the documented machine (error, final state, required/forbidden effects); closed channels are final or re-made; the context listener stops only its own run; Status()/Is* tables. The previous context is cancelled inside the same write-locked section that replaces it. The context listener is spawned only after Running is stored; a bind on a running worker has exactly one effect, the wake-up; every option handed to a constructor is applied on every path. Sequential semantics: concurrent control calls are not decided.",
+         "Every (method, initial state) cell of Pause, PauseAndWait, Resume, Stop, WaitAndStop, Restart, TunePool, start and all 16 public bind methods equals the documented machine (error, final state, required/forbidden effects); closed channels are final or re-made; the context listener stops only its own run; Status()/Is* tables. The previous context is cancelled inside the same write-locked section that replaces it. The context listener is spawned only after Running is stored; a bind on a running worker has exactly one effect, the wake-up; every option handed to a constructor is applied on every path. Every path of the context listener calls Stop unless its context was found not to be the current one (cancellation stops the worker in every state). Sequential semantics: concurrent control calls are not decided.",
          "One control call at a time.",
          "DESIGN.md §3 C14"),
  "C15": ("path counting over the bind methods + table extraction of the strategy switch and comparators + lockset",
-         "Every public bind method registers the bound queue exactly once; strategy switch table; round-robin cursor discipline (write lock, +1 mod n, pre-increment item, non-empty, one cycle); MaxLen comparator sign and MinLen update condition on all order types; item list append-only, nothing unregisters. The cursor is reset only where an item is removed; structs holding a mutex/atomic (the queue manager with its cursor) are never copied by value. Does not decide long-run fairness under concurrent submission.",
+         "Every public bind method registers the bound queue exactly once; strategy switch table; round-robin cursor discipline (write lock, +1 mod n, pre-increment item, non-empty, one cycle); MaxLen comparator sign and MinLen update condition on all order types; item list append-only, nothing unregisters. The cursor is reset only where an item is removed; structs holding a mutex/atomic (the queue manager with its cursor) are never copied by value. The cursor arithmetic is followed symbolically (offsets from the entry cursor): an item handed out from position c+k leaves the cursor at c+k+1, however the scan is written; MinLen is evaluated for every order type of up to three lengths; the strategy dispatch for every declared constant and an undeclared value. Does not decide long-run fairness under concurrent submission.",
          "Trusts slices.MaxFunc.",
          "DESIGN.md §3 C15"),
  "C16": ("path analysis of the submit family + status-writer inventory + interference-mode CAS analysis",
-         "Queued is stored before the publishing Enqueue in all 12 handle-returning submit paths and never after; plain status stores only at construction, as Queued before publication and as Finished in the completion callback; all other transitions are forward-only compare-and-swaps. Every Wait of the job family returns only through its WaitGroup/counter (or after reading Closed). Together with the completion order this excludes backward moves of a handle's status.",
+         "Queued is stored before the publishing Enqueue in all 12 handle-returning submit paths and never after; plain status stores only at construction, as Queued before publication and as Finished in the completion callback; all other transitions are forward-only compare-and-swaps. Every Wait of the job family returns only through its WaitGroup/counter (or after reading Closed). The wrappers run the user's function synchronously (Finished is stored after it returned). Together with the completion order this excludes backward moves of a handle's status.",
          "Trusts sync/atomic.",
          "DESIGN.md §3 C16"),
  "C17": ("lockset over atomic counter reads + path analysis of submit/completion/wrappers + who-may-call",
@@ -71,7 +71,7 @@ CLAIMS = {
          "Lock identity per (type, field).",
          "DESIGN.md §3 C17"),
  "C18": ("goroutine inventory + lifecycle table + path rules + table extraction",
-         "Every go statement is classified with its blocking receives and the event that releases them, each performed by every Stop outcome (a ticker loop needs a done case closed by stopTickers); Stop's full tear-down after the wait, Restart removes idle nodes first; nodes created only on the empty-idle-list branch and once in start; snapshot slices bounded by the snapshot's own length; minimum idle = max(limit*ratio/100,1) on sample points, kept by freePoolNode and by TunePool's strict shrink guard; node ownership typestate. Restart stops the previous run's tickers before it spawns a new reaper; TunePool stores the limit before it wakes the dispatcher. A node taken out of the idle list is stopped, recycled, re-inserted or used on every path (no leak); freePoolNode retires only after establishing idle >= minimum. Does not decide expiry timing.",
+         "Every go statement is classified with its blocking receives and the event that releases them, each performed by every Stop outcome (a ticker loop needs a done case closed by stopTickers); Stop's full tear-down after the wait, Restart removes idle nodes first; nodes created only on the empty-idle-list branch and once in start; snapshot slices bounded by the snapshot's own length; minimum idle = max(limit*ratio/100,1) on sample points, kept by freePoolNode and by TunePool's strict shrink guard; node ownership typestate. Restart stops the previous run's tickers before it spawns a new reaper; TunePool stores the limit before it wakes the dispatcher. A node taken out of the idle list is stopped, recycled, re-inserted or used on every path (no leak); freePoolNode retires only after establishing idle >= minimum. The dispatcher re-reads the limit before every hand-off; with an expiry configured a node is stamped before it enters the idle list. Does not decide expiry timing.",
          "time.Ticker.Stop does not close C.",
          "DESIGN.md §3 C18"),
  "C19": ("context-sensitive static lockset over every struct field of the library (abstract interpretation, CHA, instantiation-aware)",
